@@ -81,6 +81,18 @@ def Rand.new (stream : Nat → Int) : Rand := ⟨stream, 0⟩
 def Rand.intn (r : Rand) (n : Int) : Outcome (Rand × Int) :=
   if n ≤ 0 then .panic else .ok ({ r with pos := r.pos + 1 }, r.stream r.pos % n)
 
+
+/-- `float64`, COPY-ONLY: a value is its IEEE-754 bit pattern and the translated code can do nothing with it but move it
+(field read, struct literal, assignment, argument, result).  The translator refuses every operator, comparison (also `==`
+of a struct with such a field: IEEE `==` is not equality of bit patterns — NaN, ±0), conversion and constant of the type,
+so no property of the carrier is ever used: every theorem about generated code holds for any type in its place. -/
+structure F64 where
+  bits : UInt64
+  deriving DecidableEq, Repr, Inhabited
+
+/-- the zero value `+0.0` -/
+def F64.zero : F64 := ⟨0⟩
+
 /-- a Go `string`: its bytes (strings are immutable values in Go too) -/
 abbrev Str := List UInt8
 
